@@ -5,6 +5,7 @@
 
   Proved:
    * `csleep_cycles` : every arm of the csleep table takes exactly n cycles (zero-page DUMMY)
+   * `csleep_arms_protected` : every instruction of every arm is emitted protected, or is STA/DEC of DUMMY
    * `csleep_state`  : for every machine state and every DUMMY address, every arm leaves A, X, Y,
                        SP, C, V unchanged and every memory cell except DUMMY and the byte under the
                        stack pointer unchanged
@@ -34,6 +35,13 @@ def armCycles (seq : List (Mn × Bool × Bool)) : Nat :=
   (seq.map fun t => (encCycles t.1 (if t.2.1 then Mode.zp else Mode.impl)).getD 1000).sum
 
 theorem csleep_cycles : ∀ arm ∈ csleepArms, armCycles arm.2 = arm.1 := by decide
+
+/-- every instruction of a csleep sequence is either emitted `protected` or is the store / decrement of
+    the compiler's own DUMMY cell (which no optimiser rule can remove: `STA m` only goes after `LDA m`,
+    and DUMMY cannot be named in a program; `DEC` is touched by no rule). An unprotected `PHA` / `PLA` /
+    `NOP` … would be open to the peephole rules (e.g. `PLA ; PHA` of two adjacent `csleep(7)`). -/
+theorem csleep_arms_protected : ∀ arm ∈ csleepArms, ∀ i ∈ arm.2,
+    i.2.2 = true ∨ (i.2.1 = true ∧ (i.1 = Mn.STA ∨ i.1 = Mn.DEC)) := by decide
 
 def execSeq (s : Cpu) : List (Mn × Opd) → Option Cpu
   | [] => some s
